@@ -500,7 +500,10 @@ def r10h(ctx):
                                f"{cname}.{name}(clone=True) can attach the caller's own object ({why}): the table then holds the very node the caller keeps — later edits of "
                                f"it change the table, and passing the same list to a second row moves the nodes out of the first")
     # a method WITHOUT a flag of its own copies by contract (the callee's default): it may pass clone=False only for an object it made or read itself,
-    # never for one of its own parameters (the caller's object would be attached — moved if it already sits in a table — while the maps count a new item)
+    # never for one of its own parameters (the caller's object would be attached — moved if it already sits in a table — while the maps count a new item).
+    # Private helpers may forward their parameter; they then count as attaching that parameter for their own callers (fixpoint over helper summaries).
+    attach: dict[str, set[int]] = {}   # private helper name -> indexes (self excluded) of parameters it attaches without a copy
+    infos = []
     for cname in ("Table", "Row"):
         c = repo.cls(cname)
         for name, fs in sorted(c.methods.items()):
@@ -508,32 +511,69 @@ def r10h(ctx):
             params = [a.arg for a in f.all_params()]
             if "clone" in params or f.kind in ("getter", "nested"):
                 continue
+            plist = [a.arg for a in f.all_params() if a.arg != "self"]
             items = {a.arg for a in f.all_params() if a.arg not in ("self",) and (a.annotation is None or any(k in ast.unparse(a.annotation) for k in ("Row", "Cell", "Column", "Element")))}
             if not items:
                 continue
             elems = set(items)
+            origin = {i: i for i in items}
             for lp in [x for x in walk_no_nested(f.node) if isinstance(x, ast.For) and isinstance(x.target, ast.Name)]:
-                if any(isinstance(y, ast.Name) and y.id in elems for y in ast.walk(lp.iter)):
+                src = [y.id for y in ast.walk(lp.iter) if isinstance(y, ast.Name) and y.id in elems]
+                if src:
                     elems.add(lp.target.id)
+                    origin[lp.target.id] = origin.get(src[0], src[0])
             rebound = {t.id for a in walk_no_nested(f.node) if isinstance(a, ast.Assign) for t in a.targets if isinstance(t, ast.Name)}
-            for call in [x for x in walk_no_nested(f.node) if isinstance(x, ast.Call)]:
-                kw = [k for k in call.keywords if k.arg == "clone" and isinstance(k.value, ast.Constant) and k.value.value is False]
-                if not kw:
-                    continue
-                g = c.lookup(call_name(call)) or repo.cls("Row").lookup(call_name(call)) or repo.cls("Table").lookup(call_name(call))
-                if g is None or call_name(call).lstrip("_").startswith("get"):
-                    continue
+            infos.append((cname, c, name, f, plist, elems, origin, rebound))
+
+    def handed_over(c, f, elems, rebound):
+        """(call, passed Name) for every call of f that attaches one of `elems` without a copy"""
+        out = []
+        for call in [x for x in walk_no_nested(f.node) if isinstance(x, ast.Call)]:
+            cn = call_name(call)
+            if cn.lstrip("_").startswith("get"):
+                continue
+            g = c.lookup(cn) or repo.cls("Row").lookup(cn) or repo.cls("Table").lookup(cn)
+            if g is None:
+                continue
+            kw_false = any(k.arg == "clone" and isinstance(k.value, ast.Constant) and k.value.value is False for k in call.keywords)
+            if kw_false:
                 args = list(call.args) + [k.value for k in call.keywords if k.arg != "clone"]
-                passed = [a for a in args if isinstance(a, ast.Name) and a.id in elems and a.id not in rebound]
-                n += 1
-                ok = not passed
-                ctx.instance("R10h", f"{f.file}:{f.ident}", f"{norm(call, 50)}: " + ("own object handed over without a copy" if ok else f"the caller's `{passed[0].id}` handed over without a copy"),
-                             ok=ok, nontrivial=True, line=call.lineno)
-                if not ok:
-                    ctx.report("R10h", f, call, norm(call, 60),
-                               f"{cname}.{name} has no clone flag, so its contract is the callee's default (a copy is stored); it passes clone=False with its own parameter "
-                               f"`{passed[0].id}`: the caller's object itself is attached — if it already sits in a table lxml moves it while the position map counts a new item, "
-                               f"and later edits of it reach the table")
+                out += [(call, a) for a in args if isinstance(a, ast.Name) and a.id in elems and a.id not in rebound]
+            elif cn in attach:
+                out += [(call, a) for i, a in enumerate(call.args) if i in attach[cn] and isinstance(a, ast.Name) and a.id in elems and a.id not in rebound]
+        return out
+
+    for _ in range(4):
+        changed = False
+        for cname, c, name, f, plist, elems, origin, rebound in infos:
+            if not name.startswith("_") or name.startswith("__"):
+                continue
+            for call, a in handed_over(c, f, elems, rebound):
+                root = origin.get(a.id, a.id)
+                if root in plist and plist.index(root) not in attach.setdefault(name, set()):
+                    attach[name].add(plist.index(root))
+                    changed = True
+        if not changed:
+            break
+    for cname, c, name, f, plist, elems, origin, rebound in infos:
+        if name.startswith("_") and not name.startswith("__"):
+            continue
+        calls_kw = [x for x in walk_no_nested(f.node) if isinstance(x, ast.Call) and (any(k.arg == "clone" and isinstance(k.value, ast.Constant) and k.value.value is False for k in x.keywords)
+                                                                                  or call_name(x) in attach)]
+        bad = {id(call): a for call, a in handed_over(c, f, elems, rebound)}
+        for call in calls_kw:
+            if call_name(call).lstrip("_").startswith("get"):
+                continue
+            n += 1
+            a = bad.get(id(call))
+            ok = a is None
+            ctx.instance("R10h", f"{f.file}:{f.ident}", f"{norm(call, 50)}: " + ("own object handed over without a copy" if ok else f"the caller's `{a.id}` handed over without a copy"),
+                         ok=ok, nontrivial=True, line=call.lineno)
+            if not ok:
+                ctx.report("R10h", f, call, norm(call, 60),
+                           f"{cname}.{name} has no clone flag, so its contract is the callee's default (a copy is stored); it hands its own parameter `{a.id}` to "
+                           f"`{call_name(call)}` without a copy: the caller's object itself is attached — if it already sits in a table lxml moves it while the position map counts a "
+                           f"new item, and later edits of it reach the table")
     if n == 0:
         raise AnalysisError("R10h: no setter with a clone flag found")
 
@@ -565,6 +605,8 @@ _XP = "src/odfdo/xmlpart.py"
 _EL = "src/odfdo/element.py"
 SEEDS = [
     Seed("Table.append hands the caller's row over without a copy", "fault", _T, "            self.append_row(something)", "            self.append_row(something, clone=False)", "R10h"),
+    Seed("Table.append hands the caller's row over through a private helper", "fault", _T, "            self.append_row(something)", "            self._append_live(something)", "R10h",
+         edits=[(_T, "    @property\n    def height(self) -> int:", "    def _append_live(self, row: Row) -> None:\n        self.append_row(row, clone=False)\n\n    @property\n    def height(self) -> int:")]),
     Seed("Table.append copies explicitly", "neutral", _T, "            self.append_row(something)", "            self.append_row(something, clone=True)"),
     Seed("Row.set_cells fast path no longer asks for clone is False", "fault", _R,
          "        if start == 0 and clone is False and (len(cells) >= self.width):", "        if start == 0 and len(cells) >= self.width:", "R10h"),
